@@ -30,8 +30,7 @@ Next == UNCHANGED c
 RootRec(V, E, r) ==
     LET blk == (r % Cardinality(V)) + 1                 \* traversal with every edge into blk forbidden
         Eb == {e \in E : e[2] # blk}
-        D == BFSDepth(E, r)
-    IN [r |-> r, reach |-> Reach(E, r), depth |-> {<<v, D[v]>> : v \in DOMAIN D},
+    IN [r |-> r, reach |-> Reach(E, r), depth |-> BFSDepthPairs(E, r),
         blk |-> blk, reachblk |-> Reach(Eb, r),
         idom |-> LET T == IDomTree(E, r) IN {<<v, T[v]>> : v \in DOMAIN T}]
 
@@ -56,7 +55,7 @@ UndRec(V, E) ==
         shells |-> [kk \in 1 .. dg + 1 |-> Shell(V, E, kk - 1)],
         kcores |-> [kk \in 1 .. dg + 3 |-> KCore(V, E, kk - 1)],
         msf |-> MSFWeight(V, E, W), chi |-> Chi(V, E),
-        roots |-> {LET D == BFSDepth(E, r) IN [r |-> r, reach |-> Reach(E, r), depth |-> {<<v, D[v]>> : v \in DOMAIN D}] : r \in V}]
+        roots |-> {[r |-> r, reach |-> Reach(E, r), depth |-> BFSDepthPairs(E, r)] : r \in V}]
 
 PartRec(V, E, p) ==
     LET part == [v \in {x \in V : p[x] # None} |-> p[v]]
